@@ -4,5 +4,6 @@ CONSTANTS NClasses = 1
  Nla = {"none", "one", "pair", "guess", "mixed"}
  RunCode = TRUE
  ZeroK = FALSE
+ WithU = FALSE
 INVARIANT Emit
 CHECK_DEADLOCK FALSE
